@@ -172,6 +172,23 @@ class Gen:
 
     def geom(self, a):
         r = self.rng
+        if r.random() < 0.04:
+            # non-finite transform entries: must end in an EMPTY NonFiniteVertex error, also when the transform is
+            # still pending on a lazy leaf / op node that reaches CsgLeafNode::Compose (bbox-disjoint union)
+            bad = r.choice(["nan", "inf", "-inf", "nan"])
+            k = r.randrange(5)
+            if k == 0:
+                v = ["0", "0", "0"]; v[r.randrange(3)] = bad
+                return self.add("translate", a, *v)
+            if k == 1:
+                v = ["1", "1", "1"]; v[r.randrange(3)] = bad
+                return self.add("scale", a, *v)
+            if k == 2:
+                v = ["0", "0", "0"]; v[r.randrange(3)] = bad
+                return self.add("rotate", a, *v)
+            m = ["1", "0", "0", "0", "1", "0", "0", "0", "1", "0", "0", "0"]
+            m[r.randrange(9, 12) if k == 3 else r.randrange(9)] = bad      # translation column / linear part
+            return self.add("transform", a, *m)
         k = r.randrange(9)
         if k == 0:
             return self.add("translate", a, f3(r.choice([0, 0.5, 1, -1, 0.1, 1e-3])), f3(r.choice([0, 0.5, 1, 0.2])), f3(r.choice([0, 0.5, 1, -0.3])))
@@ -360,6 +377,24 @@ def gen_program(rng, family):
         for _ in range(rng.randrange(2, 9)):
             g.step()
     return g.ins
+
+
+def far_partner(rng, ins):
+    """append: a (possibly non-finitely) transformed copy of some value united with a bbox-disjoint partner, so the union
+    takes the Compose fast path with the transform still pending"""
+    g = Gen(rng, 0)
+    g.ins = ins
+    a = g.pick()
+    t = g.geom(a)
+    c = g.add("cube", "1", "1", "1", 0)
+    far = g.add("translate", c, f3(rng.choice([50, -70, 100])), f3(rng.choice([0, 60])), "0")
+    k = rng.randrange(3)
+    if k == 0:
+        g.add("bool", t, far, 0)
+    elif k == 1:
+        g.add("batch", 0, t, far, g.pick())
+    else:
+        g.add("compose", t, far)
 
 
 def gen_large(rng):
@@ -598,6 +633,8 @@ def evaluate(cx, exe, drv, progs, nproc, timeout=1500, alarm=15):
                 if not (v[0] and v[1] and v[2]):
                     why = diagnose(ml) if not v[0] else ("pinched-vertex" if not v[2] else diagnose(ml))
                     key = why + "@" + op
+                    if op in ("bool", "batch", "compose", "split", "hullmany") and nonfinite_transform_in_cone(ins, k):
+                        key = "nonfinite-transform@compose"
                     if why in ("unreferenced-vertex", "odd-euler-characteristic", "count-mismatch") and op in ("refinelen", "refinetol", "refine") and v[2]:
                         key = "refine-strands-vertex"
                     head = ml.split(None, 9)[2:8]
@@ -632,6 +669,11 @@ def evaluate(cx, exe, drv, progs, nproc, timeout=1500, alarm=15):
             findings.append((pid, k, "crash@" + op, "the library crashed or hung (rc=%s) while evaluating instruction %d `%s`: %s" % (
                 rc, k, " ".join(ins[k][:8]) if k < len(ins) else "?", (cr[0][2][-200:] if cr else "")), {"value": "%s.%d" % (pid, k)}))
     return findings, stats
+
+
+def nonfinite_transform_in_cone(ins, k):
+    sub, _ = cone(ins, k)
+    return any(i[0] in ("translate", "scale", "rotate", "transform", "mirror") and any(t.lstrip("-") in ("nan", "inf") for t in i[2:]) for i in sub)
 
 
 def cone(ins, k):
@@ -1358,7 +1400,12 @@ def run(cx):
     for n in range(nprog):
         fam = rng.choices(FAMILIES, FAMILY_WEIGHTS)[0]
         fam_count[fam] = fam_count.get(fam, 0) + 1
-        progs["q%d" % n] = (maxtri, gen_program(rng, fam))
+        ins = gen_program(rng, fam)
+        if rng.random() < 0.06:
+            far_partner(rng, ins)
+        # a third of the programs is built completely before anything is evaluated (negative maxtri = lazy mode of the
+        # harness: values are forced last-first), so pending transforms and unevaluated CSG nodes reach the operations
+        progs["q%d" % n] = (-maxtri if rng.random() < 0.35 else maxtri, ins)
     # corpus of past shrunk failures runs first (same ids space)
     cdir = os.path.join(vp.ROOT, "corpus", "C01")
     if os.path.isdir(cdir):
@@ -1383,7 +1430,7 @@ def run(cx):
         pp["Lhuge"] = (2000000, [["sphere", "1", "1028"], ["trim", "0", "0", "0", "1", "0.5"]])   # 262k+ vertices: CreateHalfedges bucket branch
         for n in range(600):
             fam = rngp.choices(FAMILIES, FAMILY_WEIGHTS)[0]
-            pp["p%d" % n] = (20000, gen_program(rngp, fam))
+            pp["p%d" % n] = (-20000 if rngp.random() < 0.35 else 20000, gen_program(rngp, fam))
         t0 = time.time()
         fpar, spar = evaluate(cx, exe_par, drv, pp, 4, alarm=600)
         cx.log("par: %d programs, %d values, %d triangles judged, largest mesh %d triangles, %.1fs" % (len(pp), spar["values"], spar["tris"], spar["maxtri_seen"], time.time() - t0))
